@@ -392,3 +392,7 @@ from .taps import TapMixin, QueueTap  # noqa: E402
 
 class C05(TapMixin, C05Base):
     TAP_CLASS = QueueTap
+    # where destinations actually end up is only visible on real queues:
+    # two tasks in three are taps
+    TAP_SLOTS = (1, 2)
+    BUDGET = {'quick': 75, 'thorough': 900}
